@@ -1,8 +1,10 @@
 import GoNfsd.Driver.Mkfs
+import GoNfsd.Driver.Xdr
 
 def main (args : List String) : IO UInt32 :=
   match args with
   | ["mkfs"] => GoNfsd.Driver.Mkfs.main
+  | ["xdr"] => GoNfsd.Driver.Xdr.main
   | _ => do
     IO.eprintln "usage: drv <mkfs>"
     return 2
